@@ -12,14 +12,14 @@ import (
 func init() { props["C13"] = runC13 }
 
 type wTrace struct {
-	Rets    []string // per op: "n:class"
-	Errs    []error
-	Ns      []int
-	Panic   string
-	In, Out int64
-	InAfter []int64
-	OutAft  []int64
-	SinkAft []int
+	Rets      []string // per op: "n:class"
+	Errs      []error
+	Ns        []int
+	Panic     string
+	In, Out   int64
+	InAfter   []int64
+	OutAft    []int64
+	SinkAft   []int
 	WritesAft []int // number of sink Write calls made after each op
 }
 
